@@ -257,6 +257,9 @@ def execute_guarded(world, plan, limit=None):
     return res
 
 
+WORKER_EXIT_HOOKS = []
+
+
 def _chunk_job(args):
     (modname, pid, tier, master, indices, deadline, opts) = args
     world = _WORLD if (_WORLD is not None and _WORLD.__name__ == modname) else _load_world(modname)
@@ -383,6 +386,11 @@ def run_forked(jobs, workers, hard_timeout):
                         pass
                 finally:
                     try:
+                        for fn in WORKER_EXIT_HOOKS:       # os._exit skips atexit: scratch directories are removed here
+                            try:
+                                fn()
+                            except Exception:       # noqa: BLE001
+                                pass
                         sys.stdout.flush()
                         sys.stderr.flush()
                     finally:
